@@ -229,7 +229,7 @@ def _safety(name):
 
 
 _ALL_UNITS = ["take_range", "sort_take", "split_order", "window_frame", "dialect_select", "ident_quote", "ids_names", "toposort", "rq_tables",
-              "select_shape", "span_units", "sql_prec", "prql_prec", "literals", "set_ops", "desugar", "resolve_guards", "lex_strings", "limit_clause", "static_eval", "operator_tpl", "rel_names", "lower_cols", "vec_utils", "group_take", "flatten_sort", "star_exclude", "std_arity", "limit_select", "rq_shape", "star_cols", "func_env"]
+              "select_shape", "span_units", "sql_prec", "prql_prec", "literals", "set_ops", "desugar", "resolve_guards", "lex_strings", "limit_clause", "static_eval", "operator_tpl", "rel_names", "lower_cols", "vec_utils", "group_take", "flatten_sort", "star_exclude", "std_arity", "limit_select", "rq_shape", "star_cols", "func_env", "json_lits", "cte_define"]
 prop("C12", _ALL_UNITS, select={u: _safety for u in _ALL_UNITS},
      not_covered="every function that is not under contract (~150 unwrap/expect sites, todo!() in type_intersection, panic!(cannot find cid) in lookup_cid), "
                  "recursion depth, chumsky, time bounds")
@@ -242,7 +242,7 @@ claim("C12",
       "Preconditions (validated take bounds, operator arities as the resolver builds them, id counters below usize::MAX) are assumptions about call sites "
       "that are not themselves verified; RQ/PL supplied as JSON can violate them.")
 
-prop("C08", ["literals", "lex_strings"],
+prop("C08", ["literals", "lex_strings", "json_lits"],
      not_covered="float text round trip, date/time/interval literals, f-string lowering, relation literal rows, "
                  "dialects whose string literals treat backslash as an escape (finding F9: not under contract)")
 claim("C08",
@@ -253,12 +253,12 @@ claim("C08",
       "text that is neither (LN1-3); the string lexer (parse_escape_sequence and the body of multi_quoted_string, verbatim): \\n \\r \\t \\b \\f \\\\ \\/ and the "
       "escaped quote denote the documented character and consume one character (ES2a), \\xHH and \\u{H..} with 1-6 digits denote the character with that code "
       "and consume exactly the escape (ES2b-c), an unescaped string opened by n quotes is the text up to the FIRST run of n quotes, verbatim (MQ2, any n, any "
-      "length), every loop terminates and only moves forward (ES1, ES4, MQ1, MQL). NOT proved: float formatting round trip, backslash-escaping dialects, "
+      "length), every loop terminates and only moves forward (ES1, ES4, MQ1, MQL). JSON values of from_text become literals of the same value without panicking, for every number serde_json can hold (json_lits JL1-4). NOT proved: float formatting round trip, backslash-escaping dialects, "
       "content of escaped strings beyond one escape.",
       "sqlparser's Display (leaves doubled quotes alone - read in its source, validated by the thorough-tier sweep on SQLite) and sqlformat (white space only, given "
       "its precondition) are trusted; str::parse, str::replace and format! are uninterpreted; date/time/interval arms are not under contract.")
 
-prop("C07", ["set_ops", "limit_clause", "literals", "rel_names", "sql_prec"], select={"literals": lambda n: n.split(".", 1)[1] in ("EI1", "expr_of_i64.safety"), "sql_prec": lambda n: n.split(".", 1)[1].startswith("NP4.std_neg") or n.endswith(".safety")},
+prop("C07", ["set_ops", "limit_clause", "literals", "rel_names", "cte_define", "sql_prec"], select={"literals": lambda n: n.split(".", 1)[1] in ("EI1", "expr_of_i64.safety"), "sql_prec": lambda n: n.split(".", 1)[1].startswith("NP4.std_neg") or n.endswith(".safety")},
      not_covered="scope of every table / column reference, per-dialect grammar, empty projections, relation alias uniqueness (assign_names), "
                  "which dialects besides SQLite have no bare OFFSET (MySQL, BigQuery: the handler table is assumed, not executable here)")
 claim("C07",
@@ -267,20 +267,21 @@ claim("C07",
       "(WR1, loop invariant, any number of CTEs) and carries every CTE (WR2); the set quantifier is ALL iff duplicates are kept and DISTINCT is written "
       "only where the dialect accepts it (SQ1-2); the LIMIT / OFFSET / FETCH clause is one the dialect's grammar has: FETCH never without OFFSET and ORDER BY and "
       "never together with LIMIT (LC1, LC1f), a dialect without bare OFFSET gets a LIMIT meaning `no limit` whenever it gets an OFFSET (LC3, LC4), row counts are "
-      "written as plain decimal digits (literals EI1); CTE names and relation aliases are unique in their scope (rel_names AN1-2, RN1-2); nested unary minus never produces the comment token `--` (sql_prec NP4.std_neg rows). The sentence "
+      "written as plain decimal digits (literals EI1); CTE names and relation aliases are unique in their scope (rel_names AN1-2, RN1-2); nested unary minus never produces the comment token `--` (sql_prec NP4.std_neg rows). a table compiled inline leaves its declaration NotYetDefined, so no reference is compiled to the name of a CTE that was never emitted (cte_define CI1); The sentence "
       "'every accepted program compiles to valid SQL of the dialect' is NOT what is proved.",
       "dialect flags and translate_cte are parameters / externals of the slices; the rest of except(), translate_query and "
       "translate_set_ops_pipeline is dropped.")
 
-prop("C06", ["desugar", "sort_take", "func_env", "sql_prec"],
-     select={"sql_prec": lambda n: n.split(".", 1)[1] in ("NP6a", "NP6b", "TO1", "WP2", "try_into_between.safety", "translate_operand.safety")},
+prop("C06", ["desugar", "sort_take", "func_env", "cte_define", "split_order", "sql_prec"],
+     select={"split_order": lambda n: n.split(".", 1)[1] in ("RO1", "RO2", "RO3", "reorder.safety"),
+             "sql_prec": lambda n: n.split(".", 1)[1] in ("NP6a", "NP6b", "TO1", "WP2", "try_into_between.safety", "translate_operand.safety")},
      not_covered="let / into naming, user-function beta-reduction (fold_function, apply_args_to_closure), named / default arguments, module paths "
-                 "(Resolver over Module hash maps), prune_inputs, compile_relation_instance")
+                 "(Resolver over Module hash maps), prune_inputs, the CTE branch of compile_relation_instance")
 claim("C06",
       "PARTIAL. Proved on the real code, for any length: desugar_pipeline turns `v | f1 | .. | fk` into fk(.. f1(v)) (DP1, loop invariant DP2); "
       "`all` turns the conditions of n consecutive filters into the single right-nested conjunction c1 AND (c2 AND ..) in pipeline order (FC1, FC2), "
       "which is true on a row exactly when every condition is (FC3, inductive lemma); the rewrite of `lo <= x AND x <= hi` into BETWEEN fires only for "
       "exactly that shape with one x and keeps lo / hi in place (NP6a-b, relevant to expression-to-function refactorings); the ORDER BY emitted "
-      "with a LIMIT is the embedded or inherited sort (sort_take, relevant to naming a sorted prefix with let / into). applying a function binds parameter i to argument i and nothing else - env_of_closure, any number of parameters, loop invariant (func_env EC1-3). NOT proved: let/into, "
+      "with a LIMIT is the embedded or inherited sort (sort_take, relevant to naming a sorted prefix with let / into). applying a function binds parameter i to argument i and nothing else - env_of_closure, any number of parameters, loop invariant (func_env EC1-3). a compute is moved in front of a take only if it is row-local, so naming the `.. | take n` prefix with let cannot change what a following window or grouped take sees (split_order RO1-3). a let-table that is inlined as a sub-query for one reference stays definable as a CTE for the next one (cte_define CI1-3). NOT proved: let/into, "
       "beta-reduction, modules.",
       "expand_expr, the call-node constructors and the meaning of std.and (three-valued AND) are externals / axioms.")
